@@ -1,8 +1,10 @@
 SPECIFICATION Spec
 CONSTANTS
   Prefs = {"rsa", "p256", "p384"}
-  AgentPresent = TRUE
+  AgentModes = {"ok", "nolifetime", "refuse", "none"}
+  SecondFactors = {"none", "totp", "vip"}
   AsBuilt = {}
   ServerCertifies = {"rsa", "p256", "p384", "ed25519"}
 INVARIANTS NoPrivateOnWire PrivateFilesRestricted OneCertPerLabel OfferedAreCertified
+PROPERTY OtherLabelsKept
 CHECK_DEADLOCK FALSE
